@@ -29,6 +29,7 @@ class Manifest(DashElement):
         ('minimumUpdatePeriod', from_isodatetime, None),
         ('timeShiftBufferDepth', from_isodatetime, None),
         ('mediaPresentationDuration', from_isodatetime, None),
+        ('minBufferTime', from_isodatetime, None),
         ('profiles', set_from_comma_string, None),
         ('publishTime', from_isodatetime, None),
     ]
@@ -58,9 +59,10 @@ class Manifest(DashElement):
         if self.baseurl is None:
             self.baseurl = url
             assert isinstance(url, str)
-        if mode != 'live':
+        if mode != 'live' and self.profiles is not None:
             if "urn:mpeg:dash:profile:isoff-on-demand:2011" in self.profiles:
                 self.mode = 'odvod'
+        self.has_publish_time: bool = self.publishTime is not None
         if self.publishTime is None:
             self.publishTime = datetime.datetime.now(tz=UTC())
         self.mpd_type = xml.get("type", "static")
@@ -172,6 +174,16 @@ class Manifest(DashElement):
         self.elt.check_greater_than(
             len(self.periods), 0,
             msg=f'Manifest does not have a Period element: {self.url}')
+        self.attrs.check_not_none(
+            self.profiles, clause='5.3.1.2',
+            msg=f'MPD@profiles is a mandatory attribute: {self.url}')
+        self.attrs.check_not_none(
+            self.minBufferTime, clause='5.3.1.2',
+            msg=f'MPD@minBufferTime is a mandatory attribute: {self.url}')
+        if self.mpd_type == "dynamic":
+            self.attrs.check_true(
+                self.has_publish_time, clause='5.3.1.2',
+                msg=f'MPD@publishTime must be present when MPD@type is dynamic: {self.url}')
         if self.mode == "live":
             self.attrs.check_equal(
                 self.mpd_type, "dynamic",
